@@ -116,7 +116,7 @@ def chk_exact(inp, c):
     got_f = _as_bool_array(c, c.call(convex.in_hull_from_A, B.copy(), s["A"].copy(), s["lb"], s["ub"], K=Karg,
                                      baseline=s["baseline"], _where="in_hull_from_A"), k, "in_hull_from_A")
     path = _paths(c)
-    est = c.call(gen.make_estimator, dreye, inp, _where="ReceptorEstimator+register_system")
+    est = gen.live_or_new(c, dreye, inp)
     got_e = _as_bool_array(c, c.call(est.in_gamut, B.copy(), relative=rel, _where="ReceptorEstimator.in_gamut"),
                            k, "in_gamut")
     if rel is False and (inp["K"] is not None or inp["baseline"] is not None):
@@ -165,6 +165,22 @@ def chk_exact(inp, c):
 M.add("exact_bounded_fulldim", gen_exact, chk_exact, weight=3, min_held=100)
 
 
+def gen_exact_rereg(rng, i):
+    s = gen_exact(rng, i)
+    s["rereg_seed"] = int(rng.integers(0, 2 ** 31 - 1))
+    s["relative"] = True
+    return s
+
+
+def chk_exact_rereg(inp, c):
+    """Membership is decided from the CURRENTLY registered values: query, change one registration on the same estimator,
+    query again and judge the second answer against the new system."""
+    gen.rereg_check(c, dreye, inp, lambda est: (est.in_gamut(inp["B"]), est.in_gamut(inp["B"], normalized=True)), chk_exact)
+
+
+M.add("exact_after_reregistration", gen_exact_rereg, chk_exact_rereg, weight=1, min_held=30)
+
+
 # ------------------------------------------------------------------ clause 2: every configuration: sound + complete on interiors
 
 def gen_any(rng, i):
@@ -211,7 +227,7 @@ def chk_any(inp, c):
     c.cell(*gen.sys_cells(s), "mode=" + inp["mode"])
     for k in set(inp["classes"]):
         c.cell("class=" + k)
-    est = c.call(gen.make_estimator, dreye, inp, _where="ReceptorEstimator+register_system")
+    est = gen.live_or_new(c, dreye, inp)
     got = _as_bool_array(c, c.call(est.in_gamut, B.copy(), relative=rel, _where="ReceptorEstimator.in_gamut"),
                          len(B), "in_gamut")
     path = _paths(c)
@@ -308,7 +324,7 @@ def chk_chroma(inp, c):
     Pc = _chroma_coords(P)
     if np.linalg.matrix_rank(Pc - Pc.mean(0), tol=1e-9) < m - 1:
         c.unmet("chromatic gamut not full-dimensional")
-    est = c.call(gen.make_estimator, dreye, inp, _where="ReceptorEstimator+register_system")
+    est = gen.live_or_new(c, dreye, inp)
     got = _as_bool_array(c, c.call(est.in_gamut, B.copy(), relative=rel, normalized=True,
                                    _where="ReceptorEstimator.in_gamut(normalized=True)"), len(B), "in_gamut(normalized)")
     path = _paths(c)
